@@ -143,7 +143,7 @@ def _make_time_shim():
         s = _sim()
         if s is None:
             return None  # never sleep for real in the controller
-        s.sleep(d)
+        s.sleep(d, interruptible=True)
 
     def now():
         s = _sim()
@@ -343,6 +343,84 @@ class _WaveWriteProxy:
         self.close()
 
 
+class _WaveReadProxy:
+    """Real wave reader; every readframes() is a yield point and is logged
+    (frames served), so lazily read wav input is observable."""
+
+    def __init__(self, real, label):
+        self._real = real
+        self._label = label
+        self.served_frames = 0
+        READERS.append(self)
+
+    def readframes(self, n):
+        s = _sim()
+        if s is not None:
+            s.step("file.read", (self._label, n))
+            st = FILE_STALL.get("plan")
+            if st is not None:
+                st.maybe_stall(s)
+        d = self._real.readframes(n)
+        w = self._real.getsampwidth() * self._real.getnchannels()
+        self.served_frames += len(d) // max(1, w)
+        if s is not None:
+            s.note("file.data", len(d))
+        return d
+
+    def close(self):
+        return self._real.close()
+
+    def __getattr__(self, name):
+        return getattr(self._real, name)
+
+    def __enter__(self):
+        return self
+
+    def __exit__(self, *a):
+        self.close()
+
+
+class _FileReadProxy:
+    def __init__(self, real, label):
+        self._real = real
+        self._label = label
+        self.served_bytes = 0
+        READERS.append(self)
+
+    def read(self, n=-1):
+        s = _sim()
+        if s is not None:
+            s.step("file.read", (self._label, n))
+            st = FILE_STALL.get("plan")
+            if st is not None:
+                st.maybe_stall(s)
+        d = self._real.read(n)
+        self.served_bytes += len(d)
+        if s is not None:
+            s.note("file.data", len(d))
+        return d
+
+    def __getattr__(self, name):
+        return getattr(self._real, name)
+
+    def __enter__(self):
+        return self
+
+    def __exit__(self, *a):
+        self._real.close()
+
+
+READERS = []
+FILE_STALL = {"plan": None}
+
+
+def sim_open(file, mode="r", *args, **kwargs):
+    real = builtins.open(file, mode, *args, **kwargs)
+    if _sim() is not None and mode == "rb" and isinstance(file, str):
+        return _FileReadProxy(real, _os.path.basename(file))
+    return real
+
+
 class _WaveShim(types.ModuleType):
     def __getattr__(self, name):
         return getattr(_wave, name)
@@ -353,9 +431,11 @@ def _make_wave_shim():
 
     def open_(f, mode=None):
         real = _wave.open(f, mode)
-        if mode in ("wb", "w") and _sim() is not None:
+        if _sim() is not None:
             label = _os.path.basename(f) if isinstance(f, str) else "fileobj"
-            return _WaveWriteProxy(real, label)
+            if mode in ("wb", "w"):
+                return _WaveWriteProxy(real, label)
+            return _WaveReadProxy(real, label)
         return real
 
     m.open = open_
@@ -498,6 +578,8 @@ def bind():
     for mod in (auditok.workers, auditok.cmdline, auditok.cmdline_util):
         mod.print = sim_print
         report.append((mod.__name__.split(".")[-1], "print", "capture"))
+    auditok.io.open = sim_open
+    report.append(("io", "open", "read proxy"))
     _BOUND["done"] = True
     _BOUND["report"] = report
     return report
@@ -507,5 +589,7 @@ def reset_captures(scratch_dir=None):
     del PRINTED[:]
     del STDERR[:]
     del SYSTEM_CALLS[:]
+    del READERS[:]
+    FILE_STALL["plan"] = None
     SCRATCH["dir"] = scratch_dir
     SCRATCH["n"] = 0
